@@ -19,8 +19,10 @@ PROOF_FILES = ["Proofs/LowerFrame.v", "Proofs/LowerLemmas.v", "Proofs/LowerCorre
                "Proofs/SlotComposeFinal.v", "Proofs/SlotComposePipeline.v", "Proofs/SlotComposeExamples.v",
                # stage E: the emitted TEXT parses back to the instruction list; Machine.run on the parsed program gives the denoted verdict
                "Proofs/StageELink.v", "Proofs/StageEText.v", "Proofs/StageELiterals.v", "Proofs/StageECompose.v", "Proofs/StageEFlatten.v",
-               "Proofs/StageEPipeline.v", "Proofs/StageEExamples.v"]
-EXTRA_PROPS = ["Props/C01_normalize.v", "Props/C01_flatten.v", "Props/C01_end_to_end.v", "Props/C01_slots.v", "Props/C01_text.v"]
+               "Proofs/StageEPipeline.v", "Proofs/StageEExamples.v",
+               # late-pass totality: the "sort/flatten succeed" hypotheses of the end-to-end theorems are discharged (Props/C20_late.v)
+               "Proofs/LatePassTotalReach.v", "Proofs/LatePassTotalNorm.v", "Proofs/LatePassTotal.v", "Proofs/LatePassTotalExamples.v", "Proofs/LatePassTotalProgram.v", "Proofs/LatePassTotalOpt.v", "Proofs/LatePassTotalAccept.v"]
+EXTRA_PROPS = ["Props/C01_normalize.v", "Props/C01_flatten.v", "Props/C01_end_to_end.v", "Props/C01_slots.v", "Props/C01_text.v", "Props/C20_late.v"]
 
 
 def sem_check(ck, model, rng, c, nctx, stats):
